@@ -205,7 +205,7 @@ def run(tier, seed, replay=None):
             if rec and hm.model.transcript is not None and len(hm.model.transcript) < 40:
                 xcheck.append((hm.model.last_request, list(hm.model.transcript), hm.last_raw))
             real = H.canon_items(H.parse_stdout(c.out))
-            if H.canon_items(items) != real or rc != c.rc:
+            if not H.same_items(items, H.parse_stdout(c.out)) or rc != c.rc:
                 out.disagreements.append({"correspondence": "Hook.main <-> bin/dippy-hook", "model": str(H.canon_items(items)),
                                           "impl": str(real), **H.describe(c, sc)})
         detect_correspondence(hm, out)
